@@ -36,7 +36,7 @@ fn access(n: u64) -> AccessSize {
 }
 
 fn gas(o: &[Sx]) -> GAS {
-    GAS::new(space(o[1].num()), o[2].num() as u8, o[3].num() as u8, access(o[4].num()), o[5].num())
+    raw(GAS::new(space(o[1].num()), o[2].num() as u8, o[3].num() as u8, access(o[4].num()), o[5].num()))
 }
 
 pub fn run(case: &Sx, out: &mut Vec<Ev>) {
